@@ -210,8 +210,9 @@ def run_once(seed, K, dup, router_cls=c13.Router):
             t = s.spawn(f"caller{k}", caller, k)
             cur[id(t)] = ("caller", k, 1)
         s.spawn("worker_send_handler", consumer)
+        chooser = vsched.PCT(seed, depth=1 + seed % 3, horizon=250) if seed % 3 else None
         try:
-            out = s.run(until=lambda: all(t.done for t in s.threads))
+            out = s.run(until=lambda: all(t.done for t in s.threads), chooser=chooser)
         except vsched.Deadlock as e:
             out = "deadlock: " + str(e)
         except (vsched.StepLimit, vsched.StepHang) as e:
